@@ -572,7 +572,10 @@ func (p *P) Monitor(c *hx.CaseRun) []hx.Failure {
 		a, b := &r.a, &r.b
 		tag := fmt.Sprintf("run %d (mode=%s gas=%d value=%s): ", i, r.sp.mode, r.sp.gas, r.sp.value)
 		if a.panicSite != "" || b.panicSite != "" {
-			site := a.panicSite + b.panicSite
+			site := a.panicSite
+			if site == "" {
+				site = b.panicSite
+			}
 			add("no_panic", "panic "+site, site, tag+"panic")
 			continue
 		}
